@@ -42,6 +42,43 @@ theorem C12_pingslot_us (b : BandState) (a : BitVec 32) (t : Int) (ht : 0 ≤ t)
     b.pingSlot a t = (do let c ← idxInt b.down (pingSlotChannel a.toNat t); ok c.freq) := by
   rcases hf with hf | hf <;> simp only [BandState.pingSlot, hf, C12_pingslot_hopping a t ht]
 
+/-- the hopping bands of the regenerated tables have at least the eight downlink channels the hopping rule indexes -/
+theorem C12_hopping_downlinks : ∀ c ∈ Generated.allConfigs, (c.family = .us915 ∨ c.family = .au915) → 8 ≤ c.down.length := by
+  decide +kernel
+
+/-- the ping-slot accessor never panics: for every regenerated configuration, after ANY history of AddChannel / Disable / Enable,
+every DevAddr and every non-negative beacon time, `GetPingSlotFrequency` yields a value (the index (DevAddr + ⌊t / 128 s⌋) mod 8 is
+inside the downlink list of a hopping band and inside CN470's eight ping-slot frequencies). A negative beacon time is outside the
+property (time since the GPS epoch). -/
+theorem C12_pingslot_total (c : BandCfg) (hc : c ∈ Generated.allConfigs) (ops : List BandProofs.BandOp) (a : BitVec 32) (t : Int) (ht : 0 ≤ t) :
+    (BandProofs.run c.init ops).pingSlot a t ≠ panic := by
+  have hcfg : (BandProofs.run c.init ops).cfg = c := (BandProofs.inv_run c ops).1
+  have hlen : c.down.length ≤ (BandProofs.run c.init ops).down.length := BandProofs.run_down_len c.init ops
+  have hk := BandProofs.tmod_tdiv_nonneg a.toNat t ht
+  have hb : 0 ≤ (a.toNat : Int) + t / 128000000000 := by
+    have : 0 ≤ t / 128000000000 := Int.ediv_nonneg ht (by decide)
+    omega
+  have hk0 : 0 ≤ pingSlotChannel a.toNat t := by simp only [pingSlotChannel]; omega
+  have hk8 : pingSlotChannel a.toNat t < 8 := by simp only [pingSlotChannel]; omega
+  simp only [BandState.pingSlot, hk, hcfg]
+  cases hf : c.family <;> simp only []
+  case us915 =>
+    have h8 := C12_hopping_downlinks c hc (Or.inl hf)
+    have hne := BandProofs.idxInt_ne_panic (BandProofs.run c.init ops).down _ hk0 (by omega)
+    cases hi : idxInt (BandProofs.run c.init ops).down (pingSlotChannel a.toNat t) with
+    | ok ch => simp [Outcome.ok_bind]
+    | err => simp [Outcome.err_bind]
+    | panic => exact absurd hi hne
+  case au915 =>
+    have h8 := C12_hopping_downlinks c hc (Or.inr hf)
+    have hne := BandProofs.idxInt_ne_panic (BandProofs.run c.init ops).down _ hk0 (by omega)
+    cases hi : idxInt (BandProofs.run c.init ops).down (pingSlotChannel a.toNat t) with
+    | ok ch => simp [Outcome.ok_bind]
+    | err => simp [Outcome.err_bind]
+    | panic => exact absurd hi hne
+  case cn470 => exact BandProofs.idxInt_ne_panic cn470PingSlots _ hk0 (by simp [cn470PingSlots]; omega)
+  all_goals (intro h; cases h)
+
 /-! non-vacuity -/
 example : Generated.allConfigs.length = 56 := by decide
 example : (Generated.allConfigs.map fun c => c.up.length).sum > 900 := by decide +kernel
